@@ -195,7 +195,7 @@ CHECKS = {
         scenarios=[dict(name="aggsender")],
         generated=["CertFacts"],
         leanchecker=True,
-        level_text="Proved in Lean 4 by induction over EVERY operation sequence of any length (L2 blocks, epoch ticks, status ticks, Agglayer status moves, failing Agglayer calls, crashes between iterations, crashes between a submission and its local record, loss of the database, restarts), for both retry settings, BOTH flows (PP and aggchain-prover, incl. every scripted behaviour of the prover), any start block, any size limit and any size function: "
+        level_text="Proved in Lean 4 by induction over EVERY operation sequence of any length (L2 blocks, epoch ticks, status ticks, Agglayer status moves, failing Agglayer calls, crashes between iterations, crashes between a submission and its local record, loss of the database, restarts), for both retry settings, BOTH flows (PP and aggchain-prover, incl. every scripted behaviour of the prover and the optimistic-mode flag flipping at any time: a certificate in error is resent as it was only when the type to generate is still its type), any start block, any size limit and any size function: "
                    "C02_chain — only the most recent certificate can be undecided; every certificate the Agglayer ever received has (height, previous exit root, first block) = (height+1, new exit root, last block+1) of the last settled certificate before it, or (0, empty root, start block+1) at the start; it carries exactly the bridge exits and claims of its block range; "
                    "corollaries C02_no_overlap, C02_replacement (a replacement reuses height, previous root and first block of the in-error certificate), C02_after_settled, C02_settled_heights (settled heights are 0,1,2,… without gap or repeat), C02_exactly_once (the exits/claims of the settled certificates in height order are exactly the events of the covered blocks, once, in chain order). "
                    "Proved for every configuration, including Agglayers whose headers carry no previous local exit root (the fallback to the settled record one height below is sound because settled certificates are unique per height: settled_unique). C02_code_facts — the regenerated source facts the model rests on (poll before send in both loop arms; build, submit, then record; the recorded header's fields; the open statuses). "
